@@ -30,6 +30,7 @@ Proj(s) == [up |-> s.up,
             nvalid |-> SumValid(s.wal)]                                              \* entries a replay would apply
 Log(rec) == hist' = Append(hist, rec @@ [st |-> Proj(st')])
 
+NonEmptySegs(s) == Cardinality({i \in 1..Len(s.wal) : s.wal[i] # <<>>})
 Idle(s) == s.up /\ s.wpc = "idle" /\ s.cpc = "idle" /\ s.dpc = "idle"
 AllIdle(s) == Idle(s) /\ s.spc = "idle"
 LenT(s) == Len(TailSeg(s))
@@ -38,6 +39,8 @@ GWrite(b) == /\ "write" \in Acts /\ En_Write(st) /\ Idle(st) /\ st.spc \in {"idl
              /\ st' = WriteAll(st, b)
              /\ Log([a |-> "write", id |-> st.nW + 1, pts |-> PtSet(b)])
 GSnapshot == /\ "snapshot" \in Acts /\ En_SnapBegin(st) /\ AllIdle(st)
+             /\ ("fullsnap" \notin Acts \/ st.cache # Empty)         \* profile switch: no snapshots of an empty cache
+             /\ ("multiseg" \notin Acts \/ NonEmptySegs(st) >= 2)    \* profile switch: only over several WAL segments
              /\ st' = SnapAll(st)
              /\ Log([a |-> "snapshot"])
 GSnapBegin == /\ "gate" \in Acts /\ En_SnapBegin(st) /\ AllIdle(st) /\ st.cache # Empty
@@ -56,6 +59,9 @@ GDelete(S, lo, hi, open) ==
             /\ ("effdel" \notin Acts \/ \E f \in st.fset : HasTarget(f, KeysOf(S), lo, hi))
             /\ st' = DelAll(st, S, lo, hi)
             /\ Log([a |-> "delete", sel |-> S, lo |-> lo, hi |-> hi, open |-> open])
+GWalRoll == /\ "walroll" \in Acts /\ En_WalRoll(st) /\ Idle(st) /\ st.spc \in {"idle", "tmp"}
+            /\ st' = WalRoll(st)
+            /\ Log([a |-> "walroll"])
 GReopen == /\ "reopen" \in Acts /\ AllIdle(st)
            /\ st' = Reopen(st)
            /\ Log([a |-> "reopen"])
@@ -74,9 +80,13 @@ GCrashWrite(b, how) ==
 SnapTo(s, stage) ==
   LET s1 == SnapBegin(s)  s2 == SnapTmp(s1)  s3 == SnapRename(s2)  s4 == SnapClear(SnapInstall(s3))
   IN CASE stage = "taken" -> s1 [] stage = "tmp" -> s2 [] stage = "renamed" -> s3
-       [] stage = "cleared" -> s4 [] stage = "walremoved" -> SnapWalRemove(s4)
+       [] stage = "cleared" -> s4 [] stage = "walremoved" -> SnapWalRemoveAll(s4)
+       [] stage = "walremove1" -> SnapWalRemove(s4)          \* the first (oldest) of several closed segments is gone
 GCrashSnap(stage) ==
   /\ "crash" \in Acts /\ "snapshot" \in Acts /\ "snapshot" \in CrashIn /\ En_Crash(st) /\ En_SnapBegin(st) /\ AllIdle(st) /\ st.cache # Empty
+  \* "walremove1" needs the per-file hook in WAL.Remove (profile switch "perseg") and at least two closed segments
+  /\ (stage = "walremove1" => "perseg" \in Acts /\ SnapBegin(st).snapN >= 2)
+  /\ ("multiseg" \notin Acts \/ NonEmptySegs(st) >= 2)
   /\ LET s1 == SnapTo(st, stage) IN st' = Crash(s1, LenT(s1), FALSE)
   /\ Log([a |-> "crash", in |-> "snapshot", stage |-> stage])
 CompTo(s, stage) ==
@@ -121,13 +131,13 @@ DelArgs == {d \in Sels \X Times \X Times \X BOOLEAN : d[2] <= d[3]}
 GNext ==
   /\ Len(hist) < GenLen
   /\ \/ \E b \in Pick2(GBatches) : GWrite(b)
-     \/ GSnapshot \/ GSnapBegin \/ GSnapEnd \/ GCompact \/ GReopen
+     \/ GSnapshot \/ GSnapBegin \/ GSnapEnd \/ GCompact \/ GReopen \/ GWalRoll
      \/ \E d \in Pick2(DelArgs) : GDelete(d[1], d[2], d[3], d[4])
      \/ GCrashIdle
      \/ \E b \in Pick1(GBatches), how \in {"lost", "torn", "full"} : GCrashWrite(b, how)
-     \/ \E stage \in {"taken", "tmp", "renamed", "cleared", "walremoved"} : GCrashSnap(stage)
-     \/ \E stage \in {"tmp", "renamed", "removed1", "synced"} : GCrashComp(stage)
-     \/ \E d \in Pick2(DelArgs), stage \in {"tombstoned", "cache", "wal"} : GCrashDel(d[1], d[2], d[3], stage)
+     \/ \E stage \in Pick1({"taken", "tmp", "renamed", "cleared", "walremove1", "walremoved"}) : GCrashSnap(stage)
+     \/ \E stage \in Pick1({"tmp", "renamed", "removed1", "synced"}) : GCrashComp(stage)
+     \/ \E d \in Pick2(DelArgs), stage \in Pick1({"tombstoned", "cache", "wal"}) : GCrashDel(d[1], d[2], d[3], stage)
      \/ GRestart \/ GRestartCrash
 GSpec == GInit /\ [][GNext]_gvars
 
